@@ -25,6 +25,7 @@ import (
 	"os"
 	"os/exec"
 	"path/filepath"
+	"runtime"
 	"sort"
 	"strconv"
 	"strings"
@@ -165,6 +166,7 @@ type env struct {
 	fresh  map[int]string // ids added by the callers of the current burst round, by caller
 	dead   bool // the trace is abandoned: the session panicked inside Close, or the environment failed
 	closed bool // Close was attempted (it must not be called twice)
+	loops0 int  // torrent loops alive in this process when the trace began (leaked by an earlier trace: not this trace's fault)
 }
 
 // freeTCPPort picks a free port below the ephemeral range (the RPC server is restarted on the same port at every reopen:
@@ -344,8 +346,14 @@ func (e *env) obs() {
 	for _, k := range keys {
 		byih = append(byih, ev{"ih": k, "ids": v.ByInfoHash[k]})
 	}
+	// a torrent that was closed has left its loop when Close returned; give the goroutine a moment to unwind
+	loops := torrentLoops() - e.loops0
+	for i := 0; i < 100 && loops != len(live); i++ {
+		time.Sleep(2 * time.Millisecond)
+		loops = torrentLoops() - e.loops0
+	}
 	st := e.s.Stats()
-	e.T.emit(ev{"op": "obs", "live": live, "avail": avail, "db": db, "invalid": strs(v.Invalid), "byih": byih,
+	e.T.emit(ev{"op": "obs", "loops": loops, "live": live, "avail": avail, "db": db, "invalid": strs(v.Invalid), "byih": byih,
 		"nports": st.PortsAvailable, "ntorrents": st.Torrents})
 }
 
@@ -360,6 +368,20 @@ type addSpec struct {
 	sad     bool
 	sam     bool
 	sq      bool
+	failWr  bool // the resume-record transaction of this add is made to fail (plain key of that name planted in the database)
+	planted bool // ... by the caller of callAdd (burst rounds plant once for all callers)
+}
+
+// torrentLoops counts the torrent event loops alive in this process (goroutines inside (*torrent).run).
+func torrentLoops() int {
+	buf := make([]byte, 1<<20)
+	for {
+		n := runtime.Stack(buf, true)
+		if n < len(buf) {
+			return strings.Count(string(buf[:n]), "torrent.(*torrent).run(")
+		}
+		buf = make([]byte, 2*len(buf))
+	}
 }
 
 func (e *env) callAdd(g int, a addSpec) {
@@ -372,6 +394,14 @@ func (e *env) callAdd(g int, a addSpec) {
 	fail := "none"
 	if a.id == "z" {
 		fail = "storage"
+	}
+	plantedHere := false
+	if a.failWr && a.id != "" && a.id != "z" && a.kind != "bad" {
+		if a.planted {
+			fail = "write"
+		} else if torrent.VerifC14PlantKey(e.s, a.id) {
+			fail, plantedHere = "write", true
+		}
 	}
 	st := ev{"ih": hex.EncodeToString(a.m.tor.InfoHash[:]), "name": a.m.tor.Name, "ws": strs(ws), "sad": a.sad, "sam": a.sam, "sq": a.sq, "meta": metaKnown}
 	e.T.emit(ev{"op": "call", "g": g, "name": "Add", "id": a.id, "kind": a.kind, "stopped": a.stopped, "fail": fail, "st": st,
@@ -426,6 +456,9 @@ func (e *env) callAdd(g int, a addSpec) {
 	if res == "env" {
 		e.dead = true
 	}
+	if plantedHere {
+		torrent.VerifC14UnplantKey(e.s, a.id)
+	}
 	e.T.emit(ev{"op": "ret", "g": g, "res": res, "id": id, "port": port, "at": at})
 	if res == "ok" {
 		e.mu.Lock()
@@ -452,6 +485,8 @@ func classify(err error) string {
 		return "dup"
 	case strings.Contains(s, "no free port"):
 		return "noport"
+	case strings.Contains(s, "incompatible value"):
+		return "dbwrite" // bbolt: bucket operation on a plain key (the planted fault)
 	case strings.Contains(s, "injected storage error"):
 		return "storage"
 	case strings.Contains(s, "torrent not found"):
@@ -513,8 +548,18 @@ func (e *env) simple(g int, name, id string, extra ev, f func() error, frpc func
 
 var errNotFound = errors.New("torrent not found")
 
+// callRemoveDbFail: the record of id is replaced by a plain key just before the call, so that the DeleteBucket of the
+// remove fails; the key is taken away again afterwards.
+func (e *env) callRemoveDbFail(g int, id string) {
+	broke := torrent.VerifC14BreakRecord(e.s, id)
+	e.simple(g, "Remove", id, ev{"dbfail": broke}, func() error { return e.s.RemoveTorrent(id, true) }, func() error { return e.rpc.RemoveTorrent(id, true) })
+	if broke {
+		torrent.VerifC14UnplantKey(e.s, id)
+	}
+}
+
 func (e *env) callRemove(g int, id string) {
-	e.simple(g, "Remove", id, nil, func() error { return e.s.RemoveTorrent(id, true) }, func() error { return e.rpc.RemoveTorrent(id, true) })
+	e.simple(g, "Remove", id, ev{"dbfail": false}, func() error { return e.s.RemoveTorrent(id, true) }, func() error { return e.rpc.RemoveTorrent(id, true) })
 }
 
 func (e *env) callStart(g int, id string, on bool) {
@@ -694,6 +739,7 @@ func (e *env) randAdd() addSpec {
 	case x < 6:
 		a.id = "z"
 	}
+	a.failWr = e.rng.Intn(12) == 0
 	a.stopped = e.rng.Intn(10) < 6
 	a.sad, a.sam, a.sq = e.rng.Intn(4) == 0, e.rng.Intn(4) == 0, e.rng.Intn(3) == 0
 	return a
@@ -723,10 +769,18 @@ func (e *env) randOp(g int, concurrent bool) func() {
 		a := e.randAdd()
 		if concurrent && a.id != "" && a.id != "z" {
 			a.id = fmt.Sprintf("g%d", g) // ordinary bursts keep concurrent adds on distinct ids (burst-sameid is the collision class)
+			if a.failWr {
+				a.id, a.planted = "w", true // the round has planted the fault for id "w"
+			}
+		} else if concurrent {
+			a.failWr = false
 		}
 		return func() { e.callAdd(g, a) }
 	case x < 52:
 		id := e.someID()
+		if !concurrent && e.rng.Intn(8) == 0 {
+			return func() { e.callRemoveDbFail(g, id) }
+		}
 		return func() { e.callRemove(g, id) }
 	case x < 62:
 		id := e.someID()
@@ -773,6 +827,7 @@ func (e *env) randOp(g int, concurrent bool) func() {
 }
 
 func (e *env) init(mode string, idx int) {
+	e.loops0 = torrentLoops()
 	rg := make([]int, e.nports)
 	for i := range rg {
 		rg[i] = i + 1
@@ -827,7 +882,7 @@ func burstTrace(T *tracer, pool []*meta, seed int64, idx, k, rounds int, sameID 
 			if sameID {
 				// the collision class of DESIGN.md section 7: several callers add with one explicit id
 				a := e.randAdd()
-				a.kind, a.id, a.stopped = "torrent", "a", true
+				a.kind, a.id, a.stopped, a.failWr = "torrent", "a", true, false
 				if g >= k-2 && r%2 == 1 {
 					fs[g] = func(g int) func() { return func() { e.callRemove(g, "a") } }(g + 1)
 				} else {
@@ -839,6 +894,11 @@ func burstTrace(T *tracer, pool []*meta, seed int64, idx, k, rounds int, sameID 
 				a := e.randAdd()
 				if a.id != "" && a.id != "z" {
 					a.id = fmt.Sprintf("g%d", g+1)
+					if a.failWr {
+						a.id, a.planted = "w", true
+					}
+				} else {
+					a.failWr = false
 				}
 				fs[g] = func(g int, a addSpec) func() { return func() { e.callAdd(g, a) } }(g+1, a)
 			} else {
@@ -846,6 +906,7 @@ func burstTrace(T *tracer, pool []*meta, seed int64, idx, k, rounds int, sameID 
 			}
 		}
 		e.fresh = map[int]string{}
+		plantedW := !sameID && torrent.VerifC14PlantKey(e.s, "w") // fault for the adds of this round that use id "w"
 		var wg sync.WaitGroup
 		start := make(chan struct{})
 		for g := 0; g < k; g++ {
@@ -858,6 +919,9 @@ func burstTrace(T *tracer, pool []*meta, seed int64, idx, k, rounds int, sameID 
 		}
 		close(start)
 		wg.Wait()
+		if plantedW {
+			torrent.VerifC14UnplantKey(e.s, "w")
+		}
 		for g := 1; g <= k; g++ {
 			if id, ok := e.fresh[g]; ok {
 				e.known = append(e.known, id)
@@ -877,7 +941,7 @@ func burstTrace(T *tracer, pool []*meta, seed int64, idx, k, rounds int, sameID 
 // probeTrace: deterministic scenarios for the leads of DESIGN.md section 7.
 func probeTrace(T *tracer, pool []*meta, seed int64, idx int) {
 	rng := rand.New(rand.NewSource(seed*9000011 + int64(idx)))
-	names := []string{"compact-neverstarted", "compact-thissession", "compact-loaded", "stale-addtracker", "rpc-clean", "restart-full", "clean-after-readd"}
+	names := []string{"compact-neverstarted", "compact-thissession", "compact-loaded", "stale-addtracker", "rpc-clean", "restart-full", "clean-after-readd", "failpoints"}
 	name := names[idx%len(names)]
 	e := newEnv(T, rng, pool, 4, name == "rpc-clean")
 	defer e.cleanup()
@@ -942,6 +1006,38 @@ func probeTrace(T *tracer, pool []*meta, seed int64, idx int) {
 		if !e.dead {
 			e.obs()
 		}
+	case "failpoints":
+		// every failure point of add / addMagnet / remove, each followed by the re-use of the id and a look at the registry
+		e.callAdd(1, addSpec{m: pool[1], kind: "torrent", stopped: true, id: "a", failWr: true}) // resume write fails
+		e.obs()
+		e.callAdd(1, addSpec{m: pool[1], kind: "torrent", stopped: true, id: "a"}) // the id is free again
+		e.obs()
+		e.callAdd(1, addSpec{m: pool[2], kind: "magnet", stopped: false, id: "b", failWr: true}) // same for addMagnet
+		e.obs()
+		e.callAdd(1, addSpec{m: pool[2], kind: "magnet", stopped: true, id: "b"})
+		e.obs()
+		e.callAdd(1, addSpec{m: pool[3], kind: "torrent", stopped: true, id: "z"}) // GetStorage fails
+		e.obs()
+		e.callAdd(1, addSpec{m: pool[3], kind: "magnet", stopped: true, id: "z"})
+		e.obs()
+		e.callAdd(1, addSpec{m: pool[1], kind: "torrent", stopped: true, id: "a"}) // duplicate id
+		e.obs()
+		e.callRemoveDbFail(1, "a") // record delete fails
+		e.obs()
+		e.callAdd(1, addSpec{m: pool[0], kind: "torrent", stopped: false, id: "a"}) // the id is free again
+		e.obs()
+		for i := 0; i < 4; i++ { // 4 ports: exhaustion
+			e.callAdd(1, addSpec{m: pool[i%len(pool)], kind: "torrent", stopped: true})
+			e.obs()
+		}
+		e.callAdd(1, addSpec{m: pool[0], kind: "torrent", stopped: true, id: "c", failWr: true}) // no port: fails before the fault
+		e.obs()
+		e.callRemove(1, "b")
+		e.obs()
+		e.callAdd(1, addSpec{m: pool[0], kind: "torrent", stopped: true, id: "c", failWr: true})
+		e.obs()
+		e.callReopen(1, nil)
+		e.obs()
 	case "restart-full":
 		for i, m := range pool {
 			e.callAdd(1, addSpec{m: m, kind: []string{"torrent", "magnet"}[i%2], stopped: i%3 != 0, sad: i%2 == 0, sam: i == 1, sq: i >= 2})
